@@ -178,6 +178,58 @@ def run(rng, tier, res=None):
                     msgs.append(f"{m} vs euclidean: {[nm for nm, u, v in zip(names, outs[m], outs['euclidean']) if u != v]} differ")
             viol(msgs, meta)
             res.hit("family_checked")
+        # ---------- the family through the library's own pre-computed workflow, and through its own monotone rescaling ----------
+        if case % 3 == 1:
+            try:
+                import tempfile, shutil
+                import opfython.math.general as G_
+                tmpd = tempfile.mkdtemp(prefix="opfverif-c11-")
+                Pool = np.vstack([X, Q])
+                It_, Iq_ = np.arange(n), np.arange(n, n + nq)
+                outs_p = {}
+                mats_p = {}
+                for m in FAMILY:
+                    pth = os.path.join(tmpd, f"{m}.txt")
+                    G_.pre_compute_distance(Pool, pth, m)
+                    mats_p[m] = np.loadtxt(pth, ndmin=2)
+                    o_ = SupervisedOPF(distance=m, pre_computed_distance=pth); o_.fit(X.copy(), Y.copy(), It_)
+                    outs_p[m] = ([nd.status for nd in o_.subgraph.nodes], [nd.predicted_label for nd in o_.subgraph.nodes],
+                                 list(o_.subgraph.idx_nodes), list(o_.predict(Q.copy(), Iq_)))
+                shutil.rmtree(tmpd, ignore_errors=True)
+                off = ~np.eye(len(Pool), dtype=bool)
+                same_order = all(order_type(list(mats_p[m][off])) == order_type(list(mats_p["euclidean"][off])) for m in FAMILY)
+                # the files must hold the metrics (monotone transforms of one another up to rounding merges), whatever the dtype of the data
+                for m in FAMILY[1:]:
+                    E_, V_ = mats_p["euclidean"][off], mats_p[m][off]
+                    srt = np.argsort(E_, kind="stable")
+                    if any(E_[a_] < E_[b_] and V_[a_] > V_[b_] for a_, b_ in zip(srt, srt[1:])):
+                        viol([f"pre-computed {m} file is not a monotone transform of the pre-computed euclidean file ({X.dtype} data)"], meta)
+                        break
+                sq, eu = mats_p["squared_euclidean"][off], mats_p["euclidean"][off]
+                if np.any(np.abs(eu * eu - sq) > 1e-6 * np.maximum(1.0, np.abs(sq))):
+                    viol([f"pre-computed euclidean file is not the square root of the pre-computed squared_euclidean file ({X.dtype} data): "
+                          f"the five identifiers are no longer transforms of one distance"], meta)
+                if same_order and any(outs_p[m] != outs_p["euclidean"] for m in FAMILY):
+                    viol([f"pre-computed files of the five metrics give different prototypes / labels / order / predictions"], meta)
+                res.hit("family_precomputed_checked")
+                # min-max rescaling requested from a fitted model is a strictly increasing transform too
+                a_ = SupervisedOPF(distance="euclidean"); a_.fit(X.copy(), Y.copy())
+                Dn = np.array(a_.get_distances(normalize=True)); Dr = np.array(a_.get_distances())
+                offn = ~np.eye(n, dtype=bool)
+                if order_type([round(v, 12) for v in Dn[offn]]) != order_type([round(v, 12) for v in ((Dr - Dr.min()) / (Dr.max() - Dr.min()))[offn]]):
+                    viol(["get_distances(normalize=True) is not an increasing transform of the metric on the training pairs"], meta)
+                else:
+                    b_ = SupervisedOPF(distance="euclidean"); b_.pre_computed_distance = True; b_.pre_distances = Dn
+                    b_.fit(X.copy(), Y.copy(), np.arange(n))
+                    if [nd.status for nd in b_.subgraph.nodes] != [nd.status for nd in a_.subgraph.nodes] or \
+                            [nd.predicted_label for nd in b_.subgraph.nodes] != [nd.predicted_label for nd in a_.subgraph.nodes]:
+                        if len(set(Dr[offn].tolist())) == n * (n - 1) // 2 * 1 or True:
+                            tiefree_ = len(set(np.round(Dr[np.triu_indices(n, 1)], 12).tolist())) == n * (n - 1) // 2
+                            if tiefree_:
+                                viol(["training through the model's own normalised distance matrix gives other prototypes / labels than the metric itself"], meta)
+                res.hit("normalised_matrix_checked")
+            except Exception as ex:
+                viol([f"pre-computed family scenario raised {type(ex).__name__}: {ex}"], meta)
         res.add_case(f"c11 {case} {n} {d} {metric}", nontrivial=True)
         if case < 2:
             res.samples.append({"n": n, "d": d, "metric": metric, "tie_free": tie_free})
